@@ -129,9 +129,19 @@ S_Relax == /\ BB /\ pc = "relax" /\ todo # {}
            /\ LET e == CHOOSE x \in todo : \A y \in todo : x <= y IN \E imp \in BOOLEAN : Relax(e, imp)
            /\ UNCHANGED <<l, mustExh>>
 
+(* a termination section built by the configuration builder: the limits in force are the configured ones - the time *)
+(* budget is BudgetSeconds of the written H:MM:SS, the check frequency, iteration and size limits are taken as given, *)
+(* members of a combined section keep their order; an ill-formed budget is refused                                  *)
+T_TermBuilt == /\ Ev.ev = "TermBuilt" /\ pc = "idle"
+               /\ Chk("C10 a well-formed termination section builds, an ill-formed time budget is refused", Ev.ok = Ev.wellformed)
+               /\ Ev.ok => Chk("C10 the limits in force are the configured ones",
+                               Ev.models = (IF Ev.combined
+                                            THEN <<<<"it", Ev.itl, 0, 0>>, <<"rt", BudgetSeconds(Ev.h, Ev.m, Ev.s), 0, Ev.freq>>, <<"sz", Ev.szl, 0, 0>>>>
+                                            ELSE <<<<"rt", BudgetSeconds(Ev.h, Ev.m, Ev.s), 0, Ev.freq>>>>))
+               /\ UNCHANGED <<scn, queue, g, tree, cur, lastE, todo, iters, outcome, pc, reop, exh, mustExh>>
 TInit == /\ l = 1 /\ scn = Idle /\ queue = <<>> /\ g = <<>> /\ tree = <<>> /\ cur = 0 /\ lastE = 0
          /\ todo = {} /\ iters = 0 /\ outcome = "run" /\ pc = "idle" /\ reop = FALSE /\ exh = -1 /\ mustExh = FALSE
-TNext == \/ (l <= Len(Rec) /\ l' = l + 1 /\ (T_Setup \/ T_Relax \/ T_End))
+TNext == \/ (l <= Len(Rec) /\ l' = l + 1 /\ (T_Setup \/ T_Relax \/ T_End \/ T_TermBuilt))
          \/ S_Test \/ S_Pop \/ S_EndExpand \/ S_Relax
 TSpec == TInit /\ [][TNext]_tvars
 Track == TrackPos(l)
